@@ -4,6 +4,8 @@ import json, subprocess, sys
 br = sys.argv[1]
 def sh(*a, check=False):
     return subprocess.run(a, capture_output=True, text=True)
+if sh("git", "status", "--porcelain").stdout.strip():
+    print("working tree not clean: commit first"); sys.exit(2)
 r = sh("git", "merge", "--no-edit", br)
 print(r.stdout[-800:], r.stderr[-400:])
 conf = sh("git", "diff", "--name-only", "--diff-filter=U").stdout.split()
@@ -22,6 +24,12 @@ for f in conf:
         sh("git", "add", f)
     elif f == "MANIFEST.json" or f.startswith("evidence/"):
         sh("git", "checkout", "--ours", f); sh("git", "add", f)
+    elif f.endswith(".cache"):
+        sh("git", "rm", "-q", "--cached", f)
+    elif f in ("harness/gen2.py", "harness/props.py"):
+        t = open(f).read()
+        t = "\n".join(l for l in t.split("\n") if not (l.startswith("<<<<<<< ") or l.strip() == "=======" or l.startswith(">>>>>>> ")))
+        open(f, "w").write(t); sh("git", "add", f)
     else:
         print("UNRESOLVED:", f)
 left = sh("git", "diff", "--name-only", "--diff-filter=U").stdout.split()
@@ -29,6 +37,7 @@ if left:
     print("conflicts left:", left); sys.exit(1)
 # known_findings may also have merged cleanly but both sides appended: make sure it is valid JSON
 json.load(open("known_findings.json"))
+subprocess.run(["/venv/bin/python", "tools/kf_normalize.py"])
 subprocess.run(["/venv/bin/python", "harness/mkmanifest.py"])
 sh("git", "add", "-A")
 print(sh("git", "commit", "-qm", f"merge {br}").stdout)
